@@ -366,7 +366,15 @@ def mul_scalar_stab(d, r, n, seed, fam, prof, s, prof2, s2):
         return FAIL(f'exponent {p!r} is not an integer')
     N, E = exact_dot(Y1, Y2)
     if N == 0:
-        return TRIVIAL('scalar product exactly zero') if abs(v) < 1e-6 else FAIL(f'exact value 0, got {v} 2^{p}')
+        if abs(v) < 1e-6:
+            return TRIVIAL('scalar product exactly zero')
+        # an exact zero can be a cancellation of huge terms (integer cores, d = 500: the partial sums pass 2^53 and stop being
+        # exact); what floating point can deliver then is zero relative to the sum of the moduli, not zero
+        Na, Ea = exact_dot(Y1, Y2, absval=True)
+        ma, ba = me(Na)
+        if np.isfinite(v) and Na != 0 and math.log2(abs(v)) + p <= math.log2(abs(ma)) + ba + Ea + math.log2(64 * d * max(r, 2) ** 2 * EPS):
+            return TRIVIAL('scalar product zero by cancellation: result is zero relative to the sum of the moduli')
+        return FAIL(f'exact value 0, got {v} 2^{p}')
     if not (np.isfinite(v) and 1.0 <= abs(v) < 2.0):
         return FAIL(f'mantissa {v!r} not in [1, 2)')
     q = quotient(v, p, N, E)
@@ -916,7 +924,7 @@ def forms_stab(target, form, params):
 
 
 def _s_for(d):
-    return {2: 80, 3: 80, 10: 80, 60: 80, 500: 60, 3000: 10}[d]
+    return {2: 80, 3: 80, 10: 80, 60: 80, 500: 60, 2100: 14, 3000: 10}[d]
 
 
 def cases(tier, seed):
